@@ -25,6 +25,11 @@ CONTRACTS = [
             "implies(emit_default_doc and present(old(param[1]), 'doc') and not present(old(param[1]), 'default'),"
             " field(result[1], 'doc') == field(old(param[1]), 'doc'))",
             "result[0] == old(param[0])",
+            # frame: only the description is ever written -- the default (and the type) the emitters read afterwards are the
+            # caller's own (a param dict is shared with the code that emits the value, e.g. class attributes)
+            "present(result[1], 'default') == present(old(param[1]), 'default')",
+            "implies(present(old(param[1]), 'default'), same(field(result[1], 'default'), field(old(param[1]), 'default')))",
+            "present(result[1], 'typ') == present(old(param[1]), 'typ')",
         ],
         pure_results={"needs_quoting": "bool"},
     ),
